@@ -63,6 +63,22 @@ func (pConn *PFCPConn) NewPFCPSession(rseid uint64) (PFCPSession, bool) {
 
 // RemoveSession removes session using lseid.
 func (pConn *PFCPConn) RemoveSession(session PFCPSession) {
+	// Give back what was allocated for the session: its UE address (kept per session)
+	// and the TEIDs chosen for its PDRs. Every way a session ends comes through here.
+	if pConn.upf.ippool != nil {
+		if err := pConn.upf.ippool.DeallocIP(session.localSEID); err != nil {
+			logger.PfcpLog.Debugln("no UE IP address to release for session", session.localSEID)
+		}
+	}
+
+	if pConn.upf.fteidGenerator != nil {
+		for _, p := range session.pdrs {
+			if p.UPAllocateFteid {
+				pConn.upf.fteidGenerator.FreeID(p.tunnelTEID)
+			}
+		}
+	}
+
 	// Metrics update
 	session.metrics.Delete()
 	pConn.SaveSessions(session.metrics)
